@@ -31,6 +31,11 @@ C03, last clause, at RUN level (audit item L5; audited with the other `Props/C03
   per group when the result is built: a group on which it has no value, or a value without a truth value, makes the
   result — and the run — that error, and no table is printed (`having_error_is_result_error`,
   `final_result_error_is_run_error`, `acceptGroup_eval_error`, `acceptGroup_type_mismatch`).
+* **D69 for aggregate statements, composed to the run** (audit-3 item L12): a WHERE value of an aggregate statement that is
+  neither BOOLEAN nor NULL on a processed row (`agg_where_type_mismatch_is_run_error`, joins included;
+  `agg_where_type_mismatch_is_reported` without a join), and a HAVING value that is neither BOOLEAN nor NULL on a group
+  (`having_type_mismatch_is_run_error`), make the batch run end with the type error and print no table. WHICH cell's
+  error a result table with several cells without a value reports: `Props/C04Errors.lean`.
 
 What is NOT claimed: which of several erroneous rows / expressions is reported is the FIRST in the order above (stated
 by the prefix hypotheses); an error in a row behind a reached LIMIT, or behind an earlier failure, is not reported
@@ -593,17 +598,6 @@ theorem resultRows_having_error (q : AggStmt) (h : Expr) (hh : q.having = some h
         · simp only [hfr, Bool.false_eq_true, if_false]; exact ih key subs post _ k hpre' hrow hk
       · simp only [hd, Bool.false_eq_true, if_false]; rw [ih key subs post _ k hpre' hrow hk]
 
-/-- a pass that answers on every element answers -/
-theorem foldlM_unit_ok {α : Type} (f : Unit → α → Outcome Unit) : ∀ (xs : List α), (∀ x ∈ xs, f () x = .ok ()) →
-    (xs.foldlM f () : Outcome Unit) = .ok () := by
-  intro xs
-  induction xs with
-  | nil => intro _; rfl
-  | cons x xs ih =>
-    intro h
-    simp only [List.foldlM, bind, h x List.mem_cons_self, Outcome.bind]
-    exact ih (fun y hy => h y (List.mem_cons_of_mem _ hy))
-
 /-- **a group on which HAVING has no value (or no truth value) makes the RESULT that error**: the groups of the state
 in key order `pre ++ (key, subs) :: post`, every group has its row (the select-list cells evaluate), HAVING answers on
 the groups `pre` and is the error `k` on the next: then `execute_result` is the error `k` — no table, not a table
@@ -621,9 +615,8 @@ theorem having_error_is_result_error (q : AggStmt) (h : Expr) (hh : q.having = s
     (hrows (key, subs) (List.mem_append_right _ List.mem_cons_self)) hk
   unfold finalResult aggResult
   simp only [hgroups, bind, pure, Outcome.bind]
-  rw [foldlM_unit_ok _ (pre ++ (key, subs) :: post)
-    (fun g hg => by obtain ⟨row, hr⟩ := hrows g hg; simp only [hr])]
-  simp only [hres]
+  obtain ⟨cs, hcs⟩ := aggColumns_ok_of_rows hrows
+  simp only [hcs, hres]
 
 /-- **an error of the final result is the error of the run**: an aggregate statement whose input was read without
 failure and whose `execute_result` is the error `k` ends with the error `k` and prints no table -/
@@ -635,6 +628,68 @@ theorem final_result_error_is_run_error (qy : Query) (q : AggStmt) (hq : qy.stmt
     (runBatch O qy joined files none).printed = (runFiles O qy idx (batchMode qy) none files {}).out.printed := by
   rw [runBatch_eq O qy joined files idx hidx]
   simp [hok, hq, hk, failWith]
+
+/-! ### D69 for aggregate statements, composed to the run: a WHERE / HAVING value that is neither BOOLEAN nor NULL -/
+
+/-- **an aggregate WHERE whose value has no truth value is the type error of the RUN** (finding D69, the aggregate
+half; `C03Expr.where_type_mismatch_is_reported` is the SELECT half). Any aggregate statement, with or without a join:
+the run reaches an admitted line; the line presents the rows `epre ++ (env, keys) :: epost` (one per join partner; one
+row without a join); the rows `epre` update the aggregates without error; on the next row WHERE evaluates to a value `v`
+of another type than BOOLEAN that is not NULL (`WHERE v + 1`). Then the batch run ends with the type error, prints no
+table (nothing beyond what was printed before the line), and the line is the last one counted — the row is not
+silently left out of its group. -/
+theorem agg_where_type_mismatch_is_run_error (qy : Query) (q : AggStmt) (hq : qy.stmt = .aggregate q) (joined : List FileLine)
+    (idx : JoinIndex) (hidx : joinSetup qy joined = .ok idx)
+    (before : List (List FileLine)) (pre : List FileLine) (fl : FileLine) (rest : List FileLine) (after : List (List FileLine))
+    (hreach : Reaches O qy idx (batchMode qy) before pre) (hr : fl.readable = true) (hadm : anyResult fl.line.row = true)
+    (epre : List (Env × List String)) (env : Env) (keys : List String) (epost : List (Env × List String))
+    (henvs : lineEnvs qy idx false fl.line = .ok (epre ++ (env, keys) :: epost))
+    (st' : AggState) (any' : Bool)
+    (hpre : aggEnvs O q epre (stateAt O qy idx (batchMode qy) before pre).es.agg false = .ok (st', any'))
+    (f : Expr) (hf : q.filter = some f) (v : Value) (hv : eval O env f = .ok v) (hn : Props.C03.NoTruthValue v) :
+    let out := runBatch O qy joined (before ++ (pre ++ fl :: rest) :: after) none
+    out.error = some .typeError ∧
+    out.printed = (stateAt O qy idx (batchMode qy) before pre).out.printed ∧
+    out.totalLines = (stateAt O qy idx (batchMode qy) before pre).out.totalLines + 1 :=
+  line_error_is_run_error O qy joined idx hidx before pre fl rest after hreach hr .typeError
+    (agg_row_error_is_line_error O qy q hq idx (batchMode qy) _ fl.line hadm epre env keys epost henvs st' any' hpre .typeError
+      (aggUpdateRow_where_type_mismatch O q st' env f hf v hv hn))
+
+/-- … without a join the line presents exactly one row, the line's own: the statement of
+`C03Expr.where_type_mismatch_is_reported` for an aggregate statement, at run level -/
+theorem agg_where_type_mismatch_is_reported (qy : Query) (q : AggStmt) (hq : qy.stmt = .aggregate q) (hj : qy.join = none)
+    (joined : List FileLine) (idx : JoinIndex) (hidx : joinSetup qy joined = .ok idx)
+    (before : List (List FileLine)) (pre : List FileLine) (fl : FileLine) (rest : List FileLine) (after : List (List FileLine))
+    (hreach : Reaches O qy idx (batchMode qy) before pre) (hr : fl.readable = true) (hadm : anyResult fl.line.row = true)
+    (f : Expr) (hf : q.filter = some f) (v : Value)
+    (hv : eval O (envOfInsertions (columnsMapping qy.table fl.line.row fl.line.text)) f = .ok v) (hn : Props.C03.NoTruthValue v) :
+    let out := runBatch O qy joined (before ++ (pre ++ fl :: rest) :: after) none
+    out.error = some .typeError ∧
+    out.printed = (stateAt O qy idx (batchMode qy) before pre).out.printed ∧
+    out.totalLines = (stateAt O qy idx (batchMode qy) before pre).out.totalLines + 1 :=
+  agg_where_type_mismatch_is_run_error O qy q hq joined idx hidx before pre fl rest after hreach hr hadm
+    [] _ qy.table.columns [] (by simp [lineEnvs, hj]) _ false rfl f hf v hv hn
+
+/-- **a HAVING whose value on some group has no truth value is the type error of the RUN** (finding D69, the HAVING
+half). The input was read without failure; the groups of the final state in key order are `pre ++ (key, subs) :: post`;
+every cell of the table has a value; HAVING answers on the groups `pre`; on the next group it evaluates to a value `v`
+of another type than BOOLEAN that is not NULL (`HAVING SUM(v)`). Then the run ends with the type error and prints no
+table — not the table without that group. -/
+theorem having_type_mismatch_is_run_error (qy : Query) (q : AggStmt) (hq : qy.stmt = .aggregate q) (joined : List FileLine)
+    (idx : JoinIndex) (hidx : joinSetup qy joined = .ok idx) (files : List (List FileLine))
+    (hok : hasFailed (runFiles O qy idx (batchMode qy) none files {}).out = false)
+    (h : Expr) (hh : q.having = some h)
+    (pre : List (List Value × List (Nat × Value))) (key : List Value) (subs : List (Nat × Value))
+    (post : List (List Value × List (Nat × Value)))
+    (hgroups : (publishPercentiles (runFiles O qy idx (batchMode qy) none files {}).es.agg).vals = pre ++ (key, subs) :: post)
+    (hrows : ∀ g ∈ pre ++ (key, subs) :: post, ∃ row, rowOf O q g.1 g.2 (enumFrom 0 q.items) = .ok row)
+    (hpre : ∀ g ∈ pre, ∃ b, acceptGroup O q h g.1 g.2 = .ok b)
+    (v : Value) (hv : eval O (havingEnv q key subs) h = .ok v) (hn : Props.C03.NoTruthValue v) :
+    (runBatch O qy joined files none).error = some .typeError ∧
+    (runBatch O qy joined files none).printed = (runFiles O qy idx (batchMode qy) none files {}).out.printed :=
+  final_result_error_is_run_error O qy q hq joined idx hidx files hok .typeError
+    (having_error_is_result_error O q h hh _ pre key subs post hgroups hrows hpre .typeError
+      (acceptGroup_type_mismatch O q h key subs v hv hn))
 
 /-! ### examples: whole invocations on real texts (kernel-evaluated), one per clause -/
 
@@ -739,6 +794,45 @@ example : aggUpdateRow {} (match exAggQy.stmt with | .aggregate q => q | _ => de
       (envOfInsertions (columnsMapping exAggQy.table [.int 2] [])) = .error .undefinedOperation ∧
     (runBatch {} exAggQy [] [[exLine 1, exLine 2, exLine 3]] none).error = some .undefinedOperation ∧
     (runBatch {} exAggQy [] [[exLine 1, exLine 2, exLine 3]] none).printed = [] := ⟨rfl, rfl, rfl⟩
+
+/-- `SELECT COUNT(*) FROM t WHERE v + 1` -/
+def exAggWhereQy : Query :=
+  { stmt := .aggregate { items := [{ name := "count0", kind := .count none false, transform := none }],
+                         filter := some (.arith .add (.column "v") (.value (.int 1))), groupBy := none, having := none,
+                         havingAggs := [], havingKeys := [], limit := none, distinct := false }
+    table := { name := "t", columns := ["v"] }, join := none }
+
+/-- the hypotheses of `agg_where_type_mismatch_is_reported` on the second line of a file: WHERE is `4` there, an INT — and
+the run over the three lines is the type error after two lines, no table (D69) -/
+example : (runBatch {} exAggWhereQy [] ([] ++ ([exLine 1] ++ exLine 3 :: [exLine 5]) :: []) none).error = some .typeError ∧
+    (runBatch {} exAggWhereQy [] ([] ++ ([exLine 1] ++ exLine 3 :: [exLine 5]) :: []) none).printed = [] ∧
+    (runBatch {} exAggWhereQy [] ([] ++ ([exLine 1] ++ exLine 3 :: [exLine 5]) :: []) none).totalLines = 1 := by
+  have h := agg_where_type_mismatch_is_reported {} exAggWhereQy _ rfl rfl [] [] rfl [] [] (exLine 3) [exLine 5] []
+    ⟨rfl, rfl, rfl⟩ rfl rfl _ rfl (.int 4) rfl ⟨by simp, by intro b; simp⟩
+  exact h
+
+/-- `SELECT k, SUM(v) FROM t GROUP BY k HAVING SUM(v)` over rows `(1, 5)`, `(2, 7)` -/
+def exHavingQy : Query :=
+  { stmt := .aggregate { items := [{ name := "k", kind := .groupKey (.column "k") "k", transform := none },
+                                   { name := "sum1", kind := .sum (.column "v"), transform := none }],
+                         filter := none, groupBy := some [(.column "k", "k")], having := some (.groupValueRef 0),
+                         havingAggs := [(0, .sum (.column "v"))], havingKeys := [], havingVisit := [.agg 0 (.sum (.column "v"))],
+                         limit := none, distinct := false }
+    table := { name := "t", columns := ["k", "v"] }, join := none }
+
+def exLine2 (k n : Int) : FileLine := { readable := true, line := { text := [], row := [.int k, .int n] } }
+
+/-- the hypotheses of `having_type_mismatch_is_run_error`: both lines are read, the groups are `1` and `2`, every cell has
+a value, HAVING is `5` on the first group — an INT: the run is the type error and prints no table (D69) -/
+example : (runBatch {} exHavingQy [] [[exLine2 1 5, exLine2 2 7]] none).error = some .typeError ∧
+    (runBatch {} exHavingQy [] [[exLine2 1 5, exLine2 2 7]] none).printed = [] := by
+  have h := having_type_mismatch_is_run_error {} exHavingQy _ rfl [] [] rfl [[exLine2 1 5, exLine2 2 7]] rfl _ rfl
+    [] [.int 1] [(1, .int 5), (2, .int 5)] [([.int 2], [(1, .int 7), (2, .int 7)])] rfl
+    (by intro g hg
+        simp only [List.nil_append, List.mem_cons, List.not_mem_nil, or_false] at hg
+        rcases hg with rfl | rfl <;> exact ⟨_, rfl⟩)
+    (by intro g hg; simp at hg) (.int 5) rfl ⟨by simp, by intro b; simp⟩
+  exact h
 
 end Examples
 
